@@ -292,7 +292,9 @@ def pivot_pairing(ctx, fi, counter: str = "nchol"):
         if m is not None and is_const(m[1], 1) and m[0].op == "havoc":
             cand.append((e, m[0]))
     if len(cand) != 1:
-        raise AnalysisError(f"{q}: store of the next Cholesky vector (row counter + 1) not found ({len(cand)})")
+        ctx.rep.note(f"{q}: the store of the next Cholesky vector (row counter + 1) was not identified ({len(cand)} candidates); "
+                     f"the vector-formula rules do not apply to this shape of the loop")
+        return
     e, v = cand[0]
     val = strip_wrappers(e.data[2])
     line = e.line
